@@ -140,6 +140,12 @@ class C03(Prop):
                     if off + ln > 112: continue
                     v = int.from_bytes(b, "big") ^ (pat << (112 - off - ln))
                     ops.append(hexop("F", v.to_bytes(14, "big")))
+        # the checksum window when the frame is read from a reader (fragmented, interrupted) that does not start at offset 0:
+        # the second and later frames of a recording held in one reader
+        for b in bases + valid:
+            for off in (1, 7, 14, 28, 3 + rng.below(40)):
+                for sc in ("-", ",".join(["1"] * 40), ",".join(rng.choice(["I", "1", "2", "3", "20"]) for _ in range(30))):
+                    ops.append("R %s %s %d" % (bytes(b).hex(), sc, off))
         return ops
     def project(self, op, line):
         return (head(line), tok(line, "crc"))
@@ -173,6 +179,9 @@ class C04(Prop):
         if tier == "quick":
             for i in range(n):
                 a = (i * 257 + (i >> 8)) & 0xFFFFFF if i % 3 else rng.bits(24)
+                ops.append("I %06x" % a)
+            # boundary addresses: zero, leading zeros, single digits in every position, all ones
+            for a in [0, 0xFFFFFF, 0xABCDEF, 0xFEDCBA] + [d << (4 * k) for d in range(1, 16) for k in range(6)] + list(range(1, 300)):
                 ops.append("I %06x" % a)
         else:
             for a in range(n): ops.append("I %06x" % a)
@@ -577,6 +586,9 @@ class C20(Prop):
         ops += [o.replace("F ", "V ", 1) for o in ops[:n] if o[2:4] in ("8d", "8c", "8f", "90", "91", "92", "93", "94", "95", "96", "97")][:n // 2]
         for h in range(20 if tier == "quick" else 200):
             ops += gentrack.history(rng, 120, n_planes=1 + rng.below(4), with_time=False)
+        # boundary addresses as map keys (the tracker is serialized with the address text as key): zero, leading zeros, all ones
+        ops += gentrack.history(rng, 60, n_planes=4, with_time=False, addrs=[0x000000, 0x000001, 0x00000A, 0xFFFFFF])
+        ops += gentrack.history(rng, 60, n_planes=4, with_time=False, addrs=[0x0ABCDE, 0x100000, 0x00FF00, 0x000100])
         return ops
     def equal(self, a, m): return a == m or numeq(a, m) or a.startswith("TXT")    # renderings are compared by C11, here std vs alloc
     def project(self, op, line): return line if not line.startswith("TXT") else "TXT"
@@ -941,7 +953,44 @@ class C19(Prop):
             for sc in scheds:
                 self._pairs.append((base, len(ops), "from_reader under schedule %s differs from from_bytes" % sc[:40]))
                 ops.append("R %s %s" % (h, sc))
+            # the same frame standing `off` bytes into a longer reader (second and later frames of a stream)
+            for off in (1, 2, 7, 14, 21, 1 + rng.below(64)):
+                for sc in (scheds[:7] + [rng.choice(scheds[7:]) for _ in range(4 if tier == "quick" else 30)]):
+                    self._pairs.append((base, len(ops), "from_reader at offset %d under schedule %s differs from from_bytes" % (off, sc[:40])))
+                    ops.append("R %s %s %d" % (h, sc, off))
             self._pairs.append((base, len(ops), "repeated decode differs")); ops.append("F " + h)
+            # ReaderCrc itself (through the cfg-guarded hook) against the RC model on explicit call sequences
+            for k in range(6 if tier == "quick" else 40):
+                pre = bytes(rng.bits(8) for _ in range(rng.choice([0, 0, 1, 2, 5, 14, 33])))
+                kind = rng.below(3)
+                if kind == 0:      # what deku issues: byte reads, id re-reads
+                    calls = []
+                    for _ in range(2 + rng.below(14)):
+                        calls.append("r%d" % rng.choice([1, 1, 1, 2, 3]))
+                        if rng.chance(1, 3): calls.append("s1")
+                elif kind == 1:    # arbitrary reads and backward seeks (within what was read)
+                    calls = []; pos = 0
+                    for _ in range(2 + rng.below(16)):
+                        if pos > 0 and rng.chance(1, 3):
+                            j = 1 + rng.below(min(pos, 3)); calls.append("s%d" % j); pos -= j
+                        else:
+                            n = rng.below(5); calls.append("r%d" % n); pos += n
+                else:              # anything, including reads past the end and (at offset 0, where the reader refuses them) seeks before the start;
+                                   # behind a prefix a seek before the frame's first byte is outside what deku issues and outside the model
+                    calls = []; pos = 0
+                    for _ in range(1 + rng.below(12)):
+                        c = rng.choice(["r0", "r1", "r2", "r4", "r9", "s1", "s2", "s5"])
+                        n = int(c[1:])
+                        if c[0] == "s":
+                            if n > pos and pre: continue
+                            pos = max(0, pos - n)
+                        else:
+                            if pos + n > len(b): calls.append(c); break
+                            pos += n
+                        calls.append(c)
+                    if not calls: calls = ["r1"]
+                sc = rng.choice(scheds)
+                ops.append("RC %s %s %s %s" % (pre.hex() or "-", h, sc, ",".join(calls)))
         return ops
     def pairs(self, ops): return self._pairs
     def norm(self, line): return line
